@@ -33,11 +33,12 @@ type itemResult struct {
 	compileErr string // "" = compiled
 	dump       string
 	ran        bool
+	infra      string // the go tool itself failed (timeout, missing toolchain): nothing is concluded
 }
 
 const (
 	batchSize   = 150
-	selfTypes   = c10typesPath          // the generated file lives in package c10types
+	selfTypes   = c10typesPath           // the generated file lives in package c10types
 	selfMain    = "verifharness/c10main" // ... or in another package of the module
 	maxBuilders = 4
 )
@@ -49,6 +50,7 @@ type batcher struct {
 	sem     chan struct{}
 	nBuilds int
 	nItems  int
+	nInfra  int
 }
 
 var theBatcher = &batcher{pending: map[string][]*item{}, sem: make(chan struct{}, maxBuilders)}
@@ -138,6 +140,15 @@ func compileAndRun(items []*item, depth int) []itemResult {
 					}
 				}
 			}
+		}
+		if strings.HasPrefix(err.Error(), "infrastructure:") {
+			theBatcher.mu.Lock()
+			theBatcher.nInfra++
+			theBatcher.mu.Unlock()
+			for _, i := range alive {
+				res[i] = itemResult{infra: firstLines(err.Error(), 2)}
+			}
+			return res
 		}
 		if len(bad) == 0 {
 			if len(alive) == 1 {
@@ -281,6 +292,9 @@ func buildAndRun(items []*item) (out map[int]string, spans [][2]int, err error) 
 	cmd.Dir = dir
 	cmd.Env = append(os.Environ(), "GOFLAGS=-mod=mod", "GOPROXY=off")
 	if o, e := cmd.CombinedOutput(); e != nil {
+		if ctx.Err() != nil || !bytes.Contains(o, []byte(".go:")) {
+			return nil, spans, fmt.Errorf("infrastructure: go build: %v %s", e, firstLines(string(o), 2))
+		}
 		return nil, spans, fmt.Errorf("go build: %v\n%s", e, o)
 	}
 	ctx2, cancel2 := context.WithTimeout(context.Background(), 60*time.Second)
@@ -289,6 +303,9 @@ func buildAndRun(items []*item) (out map[int]string, spans [][2]int, err error) 
 	var so, se bytes.Buffer
 	run.Stdout, run.Stderr = &so, &se
 	if e := run.Run(); e != nil {
+		if ctx2.Err() != nil {
+			return nil, nil, fmt.Errorf("infrastructure: the generated program timed out")
+		}
 		// a run-time failure (cannot be attributed to a line): report it on every variable
 		return nil, nil, fmt.Errorf("the generated program failed: %v %s", e, firstLines(se.String(), 3))
 	}
